@@ -502,7 +502,10 @@ func returnLeaves(f *ssa.Function, idx int) []RetLeaf {
 		if !ok || idx >= len(ret.Results) {
 			continue
 		}
-		expandLeaves(ret.Results[idx], b, ret, map[ssa.Value]bool{}, &out)
+		if b == f.Recover {
+			continue // reached only through a recovered panic
+		}
+		expandLeaves(retResult(ret, idx), b, ret, map[ssa.Value]bool{}, &out)
 	}
 	// de-duplicate (defer-spilled results are seen from the normal and the
 	// recover return)
@@ -529,6 +532,48 @@ func returnLeaves(f *ssa.Function, idx int) []RetLeaf {
 		ded = append(ded, l)
 	}
 	return ded
+}
+
+// retResult returns the value returned in slot i, looking through the
+// spill that go/ssa inserts in functions with defer: `*res = v; rundefers;
+// t = *res; return t`.
+func retResult(ret *ssa.Return, i int) ssa.Value {
+	v := ret.Results[i]
+	u, ok := v.(*ssa.UnOp)
+	if !ok || u.Op != token.MUL || u.Block() != ret.Block() {
+		return v
+	}
+	al, ok := u.X.(*ssa.Alloc)
+	if !ok {
+		return v
+	}
+	var last ssa.Value
+	for _, in := range ret.Block().Instrs {
+		if in == ssa.Instruction(u) {
+			break
+		}
+		if st, ok := in.(*ssa.Store); ok && st.Addr == ssa.Value(al) {
+			last = st.Val
+		}
+	}
+	if last != nil {
+		return last
+	}
+	return v
+}
+
+// returnsOf lists the (non-recover) Return instructions of f.
+func returnsOf(f *ssa.Function) []*ssa.Return {
+	var out []*ssa.Return
+	for _, b := range f.Blocks {
+		if b == f.Recover || len(b.Instrs) == 0 {
+			continue
+		}
+		if ret, ok := b.Instrs[len(b.Instrs)-1].(*ssa.Return); ok {
+			out = append(out, ret)
+		}
+	}
+	return out
 }
 
 func expandLeaves(v ssa.Value, blk *ssa.BasicBlock, ret *ssa.Return, seen map[ssa.Value]bool, out *[]RetLeaf) {
